@@ -538,10 +538,16 @@ def case_solve(log, order, method):
             c = fs.calls[0]
             r = c["r"]
             r = r[0] if isinstance(r, realnp.ndarray) else r
-            ker = mm.ker_dispatcher(x0, x0, sc, 1.0, 5) if False else None
-            # residual(x) + x == m2_ref * ker^2 with ker evaluated for the transition q2m_ref -> x: at x == q2m_ref the kernel is 1
-            v = prove_zero(SR(0) + r + x0 - m2, "solve[order %d, %s]: residual at the start value x = q2m_ref equals m2_ref - x (kernel of a zero-length evolution is 1)" % (order, method))
-            D(v, key="solve:residual", replay=rp, sampler=_sampler)
+            if method == "expanded":
+                # at the start value x = q2m_ref the kernel of the (zero-length) evolution is identically 1
+                v = prove_zero(SR(0) + r + x0 - m2, "solve[order %d, %s]: residual at the start value x = q2m_ref equals m2_ref - x" % (order, method))
+                D(v, key="solve:residual", replay=rp, sampler=_sampler)
+            else:
+                q = qs.calls[-1]
+                v = prove_zero(SR(0) + r + x0 - m2 * q["val"].exp() ** 2, "solve[order %d, %s]: residual == m2_ref*exp(integral)^2 - x" % (order, method))
+                D(v, key="solve:residual", replay=rp, sampler=_sampler)
+                v = prove_zero(SR(0) + q["a"] - q["b"], "solve[order %d, %s]: at the start value the kernel integral runs over a zero-length interval" % (order, method))
+                D(v, key="solve:residual", replay=rp, sampler=_sampler)
             log.twin("domain")
             log.collect_ctx()
         finally:
@@ -549,3 +555,433 @@ def case_solve(log, order, method):
 
     _r, pm = explore(run)
     log.path_stats(pm)
+
+
+# ---------------------------------------------------------------------------
+# (i) bookkeeping of compute
+# ---------------------------------------------------------------------------
+class SqTok:
+    """a linear scale whose square is a free symbol (keeps every comparison of compute linear)"""
+
+    def __init__(self, sq):
+        self.sq = sq
+
+    def __pow__(self, k):
+        if k != 2:
+            raise EngineError("scale token raised to power %r" % (k,))
+        return self.sq
+
+
+def _dec(c):
+    return c if isinstance(c, bool) else bool(c)
+
+
+class MassArr(realnp.ndarray):
+    """object array of squared masses; comparisons with a scalar are decided element-wise through the path manager"""
+
+    def _cmp(self, o, op):
+        return realnp.array([_dec(op(e, o)) for e in realnp.asarray(self).tolist()], dtype=bool)
+
+    def __lt__(self, o):
+        return self._cmp(o, lambda e, x: (SR(0) + e) < x)
+
+    def __gt__(self, o):
+        return self._cmp(o, lambda e, x: (SR(0) + e) > x)
+
+    def __le__(self, o):
+        return self._cmp(o, lambda e, x: (SR(0) + e) <= x)
+
+    def __ge__(self, o):
+        return self._cmp(o, lambda e, x: (SR(0) + e) >= x)
+
+
+class BkNumpy(C18Numpy):
+    @property
+    def inf(self):
+        return SR.var("INF")
+
+    def concatenate(self, arrs, *a, **k):
+        out = realnp.concatenate([realnp.asarray(x, dtype=object) for x in arrs]).astype(object)
+        return out.view(MassArr)
+
+    def sort(self, a, *args, **k):
+        xs = [SR(0) + e for e in realnp.asarray(a).tolist()]
+        for i in range(1, len(xs)):
+            j = i
+            while j > 0 and _dec(xs[j - 1] > xs[j]):
+                xs[j - 1], xs[j] = xs[j], xs[j - 1]
+                j -= 1
+        out = realnp.empty(len(xs), dtype=object)
+        for i, e in enumerate(xs):
+            out[i] = e
+        return out.view(MassArr)
+
+
+def case_bookkeeping(log, nf_ref):
+    mm, cpl = _load()
+    mm.np = BkNumpy()
+    log.encode(mm.compute)
+    D = Decider(log, max_replays=3)
+    names = "cbt"
+
+    def run():
+        v2 = [SR.var("m2_%s" % q) for q in names]  # reference mass^2
+        s2 = [SR.var("q2_%s" % q) for q in names]  # its reference scale^2
+        mu2 = SR.var("mu2_ref")
+        INFs = SR.var("INF")
+        for x in v2 + s2 + [mu2]:
+            assume(x, ">0")
+            assume(INFs - x - 1, ">0")
+        sol = [SR.var("SOL_%s" % q) for q in names]
+        evs = [SR.var("EV_%s" % q) for q in names]
+        for x in sol + evs:
+            assume(x, ">0")
+            assume(INFs - x - 1, ">0")
+        from eko.quantities.heavy_quarks import HeavyQuarkMasses
+
+        mref = HeavyQuarkMasses([types.SimpleNamespace(value=SqTok(v2[i]), scale=SqTok(s2[i])) for i in range(3)])
+        cinfo = types.SimpleNamespace(ref=(SqTok(mu2), nf_ref), alphas=0.118, alphaem=0.0075, em_running=False, values=(0.118, 0.0075))
+        state = {"cur": None}
+        solves, evolves, scs = [], [], []
+
+        class RecCouplings:
+            def __init__(self, couplings, order=None, method=None, masses=None, hqm_scheme=None, thresholds_ratios=None):
+                self.thr = [SR(0) + e for e in realnp.asarray(masses).tolist()]
+                self.kw = dict(couplings=couplings, order=order, method=method, hqm_scheme=hqm_scheme, thresholds_ratios=thresholds_ratios)
+                scs.append(self)
+
+        def which(m2_ref_arg, q2m_arg):
+            return len(solves)
+
+        def rec_evolve(m2_ref, q2m_ref, strong_coupling, thresholds_ratios, xif2, q2_to, nf_ref=None, nf_to=None):
+            k = len(evolves)
+            evolves.append(dict(m2_ref=m2_ref, q2m_ref=q2m_ref, sc=strong_coupling, ratios=thresholds_ratios, xif2=xif2, q2_to=q2_to, nf_ref=nf_ref, nf_to=nf_to, at_solve=len(solves)))
+            return evs[k]
+
+        def rec_solve(m2_ref, q2m_ref, strong_coupling, nf_target, xif2):
+            k = len(solves)
+            solves.append(dict(m2_ref=m2_ref, q2m_ref=q2m_ref, sc=strong_coupling, nf=nf_target, xif2=xif2))
+            return sol[k]
+
+        saved = (mm.solve, mm.evolve, mm.Couplings)
+        mm.solve, mm.evolve, mm.Couplings = rec_solve, rec_evolve, RecCouplings
+        matching = [1.0, 1.0, 1.0]
+        xif2 = 1.0
+        err = None
+        out = None
+        try:
+            try:
+                out = mm.compute(mref, cinfo, (3, 0), "METHOD", matching, xif2)
+            except ValueError as e:
+                err = str(e)
+        finally:
+            mm.solve, mm.evolve, mm.Couplings = saved
+        rp = (MOD, "replay_compute", {"nf_ref": nf_ref})
+        # ---- independent model of the documented rules, evaluated under the path condition ----
+        order_idx = [0, 1, 2] if nf_ref <= 4 else [2, 1, 0]
+
+        def z(c):
+            return z3.BoolVal(c) if isinstance(c, bool) else S.symbool_to_z3(c)
+
+        bad = []
+        for i in range(3):
+            notfix = z3.Not(z(s2[i] == v2[i]))
+            conds = []
+            if nf_ref == i + 4:
+                conds.append(z(s2[i] > mu2))
+            if nf_ref == i + 3:
+                conds.append(z(s2[i] < mu2))
+            if i + 3 >= nf_ref:
+                conds.append(z(s2[i] >= v2[i]))
+            else:
+                conds.append(z(s2[i] < v2[i]))
+            bad.append(z3.And(notfix, z3.Or(conds)))
+        E = z3.Or(bad)
+        sorting_msg = err is not None and "not to be sorted" in err
+        if err is not None and not sorting_msg:
+            v = prove_formula(E, "nf_ref=%d: ValueError(%s...) raised only on a documented inconsistent configuration" % (nf_ref, err[:40]))
+            D(v, key="compute:valueerror_spurious", replay=rp, sampler=_sampler_bk)
+            log.twin("raise path")
+            return
+        v = prove_formula(z3.Not(E), "nf_ref=%d: no documented inconsistency on a path that reaches the end of the quark loop (every inconsistent configuration raises)" % nf_ref)
+        D(v, key="compute:valueerror_missing", replay=rp, sampler=_sampler_bk)
+        # ---- per-quark patch selection (plain model; comparisons are implied by the path condition) ----
+        cur = [SR(0)] * (nf_ref - 3) + [INFs] * (6 - nf_ref)
+        k_solve = 0
+        k_ev = 0
+        okstruct = True
+        notes = []
+        for i in order_idx:
+            if _dec(s2[i] == v2[i]):
+                cur[i] = v2[i]
+                continue
+            forward = i + 3 >= nf_ref
+            nf_target = i + 3 if forward else i + 4
+            nf_here = 3 + sum(1 for m in cur if _dec(s2[i] > m))
+            start = (v2[i], s2[i])
+            if nf_here != nf_target:
+                wall = cur[i - 1] if forward else cur[i + 1]
+                if k_ev >= len(evolves):
+                    okstruct = False
+                    notes.append("quark %s: reference point in the nf=%d patch, target patch nf=%d, but evolve was not called" % (names[i], nf_here, nf_target))
+                    break
+                e = evolves[k_ev]
+                k_ev += 1
+                chk = [("evolve m2_ref", e["m2_ref"], v2[i]), ("evolve q2m_ref", e["q2m_ref"], s2[i]), ("evolve q2_to", e["q2_to"], wall)]
+                for nm, got, want in chk:
+                    vv = prove_zero(SR(0) + got - want, "nf_ref=%d quark %s: %s is the documented one" % (nf_ref, names[i], nm))
+                    D(vv, key="compute:evolve_args", replay=rp, sampler=_sampler_bk)
+                if int(e["nf_ref"]) != nf_here or int(e["nf_to"]) != nf_target or e["at_solve"] != k_solve:
+                    okstruct = False
+                    notes.append("quark %s: evolve called with nf %r -> %r, expected %d -> %d" % (names[i], e["nf_ref"], e["nf_to"], nf_here, nf_target))
+                thr = e["sc"].thr
+                for j in range(3):
+                    vv = prove_zero(thr[j] - cur[j], "nf_ref=%d quark %s: coupling used for the evolution has the thresholds known so far [%d]" % (nf_ref, names[i], j))
+                    D(vv, key="compute:thresholds", replay=rp, sampler=_sampler_bk)
+                start = (evs[k_ev - 1], wall)
+            if k_solve >= len(solves):
+                okstruct = False
+                notes.append("quark %s: solve not called" % names[i])
+                break
+            sv = solves[k_solve]
+            k_solve += 1
+            if int(sv["nf"]) != nf_target:
+                okstruct = False
+                notes.append("quark %s solved with nf=%r, the patch adjoining its threshold on the side of the coupling reference is nf=%d" % (names[i], sv["nf"], nf_target))
+            for nm, got, want in (("solve m2_ref", sv["m2_ref"], start[0]), ("solve q2m_ref", sv["q2m_ref"], start[1])):
+                vv = prove_zero(SR(0) + got - want, "nf_ref=%d quark %s: %s is the documented start point" % (nf_ref, names[i], nm))
+                D(vv, key="compute:solve_args", replay=rp, sampler=_sampler_bk)
+            for j in range(3):
+                vv = prove_zero(sv["sc"].thr[j] - cur[j], "nf_ref=%d quark %s: coupling used for the fixed point has the thresholds known so far [%d]" % (nf_ref, names[i], j))
+                D(vv, key="compute:thresholds", replay=rp, sampler=_sampler_bk)
+            cur[i] = sol[k_solve - 1]
+        if k_solve != len(solves) or k_ev != len(evolves):
+            okstruct = False
+            notes.append("%d solve / %d evolve calls, model expects %d / %d" % (len(solves), len(evolves), k_solve, k_ev))
+        v = prove_zero(SR(0 if okstruct else 1), "nf_ref=%d: patch selection per quark as documented %s" % (nf_ref, "; ".join(notes)))
+        D(v, key="compute:patch_selection", replay=rp, sampler=_sampler_bk)
+        if err is None:
+            res = [SR(0) + e for e in realnp.asarray(out).tolist()]
+            for j in range(2):
+                v = prove_rel(res[j + 1] - res[j], ">=0", "nf_ref=%d: returned masses sorted [%d] <= [%d]" % (nf_ref, j, j + 1))
+                D(v, key="compute:sorted", replay=rp, sampler=_sampler_bk)
+            # multiset: every computed mass is returned
+            for j in range(3):
+                f = z3.Or([z(res[t] == cur[j]) for t in range(3)])
+                v = prove_formula(f, "nf_ref=%d: computed mass of quark %s is among the returned values" % (nf_ref, names[j]))
+                D(v, key="compute:sorted", replay=rp, sampler=_sampler_bk)
+        log.twin("end of loop")
+        log.collect_ctx()
+
+    _r, pm = explore(run, max_paths=4000)
+    log.path_stats(pm)
+
+
+def _sampler_bk(rng):
+    return {"m2_c": rnd(rng, 1.5, 4), "q2_c": rnd(rng, 1.5, 9000), "m2_b": rnd(rng, 15, 25), "q2_b": rnd(rng, 10, 9000), "m2_t": rnd(rng, 28000, 31000), "q2_t": rnd(rng, 100, 40000),
+            "mu2_ref": rnd(rng, 2, 40000)}
+
+
+# ---------------------------------------------------------------------------
+# replays on the real, unpatched code
+# ---------------------------------------------------------------------------
+def _real_sc(order, method, nf_ref, masses2, ratios, alphas=0.118, mu=91.0, scheme="MSBAR"):
+    from eko.couplings import Couplings
+    from eko.quantities.couplings import CouplingEvolutionMethod, CouplingsInfo
+    from eko.quantities.heavy_quarks import QuarkMassScheme
+
+    info = CouplingsInfo(alphas=alphas, alphaem=0.007496, ref=(mu, nf_ref), em_running=False)
+    meth = CouplingEvolutionMethod.EXACT if method == "exact" else CouplingEvolutionMethod.EXPANDED
+    return Couplings(info, (order, 0), meth, masses2, QuarkMassScheme[scheme], ratios)
+
+
+def _mass_ode(m2, a, lmu, order, nf):
+    """independent: d ln m^2/dlmu = -2 gamma_m(a), da/dlmu = beta(a) with literature coefficients truncated at `order`."""
+    import mpmath as mp
+
+    z3, z4, z5 = (Fraction(float(mp.zeta(k))) for k in (3, 4, 5))
+    bet = [float(x) for x in (LIT.beta0(nf), LIT.beta1(nf), LIT.beta2(nf), LIT.beta3(nf, z3))][:order]
+    gam = [float(x) for x in (LIT.gamma0(), LIT.gamma1(nf), LIT.gamma2(nf, z3), LIT.gamma3(nf, z3, z4, z5))][:order]
+    if lmu == 0:
+        return m2, a
+    sg = 1 if lmu > 0 else -1
+
+    def f(t, y):
+        A = y[0]
+        return [-sg * sum(b * A ** (k + 2) for k, b in enumerate(bet)), -2 * sg * sum(g * A ** (k + 1) for k, g in enumerate(gam))]
+
+    sol = mp.odefun(f, 0, [mp.mpf(a), mp.mpf(0)], tol=mp.mpf(10) ** (-14))
+    y = sol(abs(lmu))
+    return float(m2 * mp.exp(y[1])), float(y[0])
+
+
+def replay_solve(point, order, method):
+    """the real msbar_masses.solve (real fsolve): must return, and the returned m^2 must be a fixed point of the independent mass RGE."""
+    import math
+    from eko import msbar_masses as mm
+
+    x0 = float(point.get("x0", 17.0))
+    m2 = float(point.get("m2_ref", 16.0))
+    if not (1.5 <= x0 <= 900 and 1.5 <= m2 <= 900 and 0.3 < x0 / m2 < 3):
+        return None
+    sc = _real_sc(order, method, 5, [1.0, 1.0, 1.0], [0.0, 0.0, float("inf")])
+    try:
+        out = mm.solve(m2, x0, sc, 5, 1.0)
+    except Exception as e:  # noqa
+        return {"detail": "msbar_masses.solve(m2_ref=%r, q2m_ref=%r, order %d, %s) raised %s: %s" % (m2, x0, order, method, type(e).__name__, e)}
+    a0 = float(sc.a(x0, 5)[0])
+    want, _a = _mass_ode(m2, a0, math.log(out / x0), order, 5)
+    tol = 2e-4 if method == "exact" else 5e-3
+    if abs(want - out) > tol * out:
+        return {"detail": "solve returned m^2=%r but the running mass evolved from (m2_ref=%r at q2=%r) to that scale is %r (order %d, %s)" % (out, m2, x0, want, order, method)}
+    return None
+
+
+def replay_ker(point, order, method):
+    import math
+    from eko import msbar_masses as mm
+
+    a0 = float(point.get("a0", point.get("alpha0", 0.02)))
+    a1 = float(point.get("a1", point.get("alpha1", 0.015)))
+    if not (0.005 <= a0 <= 0.03 and 0.005 <= a1 <= 0.03):
+        return None
+    import mpmath as mp
+
+    for nf in (3, 4, 5):
+        z3, z4, z5 = (Fraction(float(mp.zeta(k))) for k in (3, 4, 5))
+        bet = [float(x) for x in (LIT.beta0(nf), LIT.beta1(nf), LIT.beta2(nf), LIT.beta3(nf, z3))][:order]
+        gam = [float(x) for x in (LIT.gamma0(), LIT.gamma1(nf), LIT.gamma2(nf, z3), LIT.gamma3(nf, z3, z4, z5))][:order]
+        f = lambda a: sum(g * a**k for k, g in enumerate(gam)) / (a * sum(b * a**k for k, b in enumerate(bet)))
+        if method == "exact":
+            want = float(mp.exp(mp.quad(f, [a0, a1])))
+            got = float(mm.ker_exact(a0, a1, (order, 0), nf))
+            if abs(got - want) > 3e-5 * abs(want):
+                return {"detail": "ker_exact(a0=%r, a1=%r, order %d, nf=%d) = %r, exp(int gamma_m/beta) = %r" % (a0, a1, order, nf, got, want)}
+        else:
+            errs, lams = [], [1.0, 0.5, 0.25, 0.125]
+            for l in lams:
+                want = float(mp.exp(mp.quad(f, [a0 * l, a1 * l])))
+                errs.append(abs(float(mm.ker_expanded(a0 * l, a1 * l, (order, 0), nf)) - want))
+            if abs(float(mm.ker_expanded(a0, a0, (order, 0), nf)) - 1) > 1e-12:
+                return {"detail": "ker_expanded(a0, a0) != 1"}
+            pairs = [(l, e) for l, e in zip(lams, errs) if e > 1e-15]
+            if len(pairs) >= 2:
+                ex = math.log(pairs[-2][1] / pairs[-1][1]) / math.log(pairs[-2][0] / pairs[-1][0])
+                if ex < order - 0.6:
+                    return {"detail": "ker_expanded - exp(int gamma_m/beta) at (a0,a1)*(1,1/2,1/4,1/8) = %r scales like a^%.2f < a^%d (order %d, nf=%d)" % (errs, ex, order, order, nf)}
+    return None
+
+
+def replay_evolve(point, order, nf_from, nf_to, physics=False):
+    """real evolve with a real Couplings object, reference ON the matching scale, target the same scale in the neighbouring patch(es); oracle: the
+    published zeta_m (for m, hence squared for m^2) with a_s^(nf+1) taken from the same object, legs in between by the independent mass ODE."""
+    import math
+    from eko import msbar_masses as mm
+
+    Ls = [float(point.get(k, d)) for k, d in (("Lc", 0.3), ("Lb", -0.4), ("Lt", 0.5))]
+    if physics and "Lq" in point:
+        Ls = [float(point["Lq"])] * 3
+    if any(abs(x) > 1.39 for x in Ls):
+        return None
+    ratios = [math.exp(x) for x in Ls]
+    masses2 = [2.0, 22.0, 30000.0]
+    walls = [m * r for m, r in zip(masses2, ratios)]
+    steps = _steps(nf_from, nf_to)
+    if len(steps) > 1:
+        return None  # multi-threshold routes: structural obligations only
+    sc = _real_sc(order, "exact", 5, masses2, ratios)
+    nfl, d = steps[0]
+    w = walls[nfl - 3]
+    m2 = 4.0
+    got = float(mm.evolve(m2, w, sc, ratios, 1.0, w, nf_ref=nf_from, nf_to=nf_to))
+    A = float(sc.a(w, nfl + 1)[0])
+    t = DEC.zeta_m_msbar(nfl)
+    zm = 1 + sum(A**n * Ls[nfl - 3] ** l * float(DEC.get(t, n, l)) for n in range(1, order) for l in range(n + 1))
+    want = m2 * zm**2 if d == "down" else m2 / zm**2
+    # truncation of the inverse at the implemented order: allowance a^order
+    allow = (50 * A) ** order + 1e-9
+    if abs(got / want - 1) > allow:
+        return {"detail": "evolve across the threshold nf %d -> %d at mu^2 = %r*m^2 (order %d, a_s^(%d)=%r): m^2 ratio %r, the published decoupling relation zeta_m (for m) gives %r for m^2"
+                % (nf_from, nf_to, ratios[nfl - 3], order, nfl + 1, A, got / m2, want / m2)}
+    return None
+
+
+def replay_compute(point, nf_ref):
+    """real compute on concrete inputs: ValueError iff documented inconsistency (independent restatement), otherwise sorted fixed points"""
+    import numpy as np
+    from eko import msbar_masses as mm
+    from eko.quantities.couplings import CouplingEvolutionMethod, CouplingsInfo
+    from eko.quantities.heavy_quarks import HeavyQuarkMasses, QuarkMassRef
+
+    need = ["m2_c", "q2_c", "m2_b", "q2_b", "m2_t", "q2_t", "mu2_ref"]
+    if not all(k in point for k in need):
+        return None
+    f = {k: float(point[k]) for k in need}
+    if not all(1.2 < f[k] < 1e5 for k in need):
+        return None
+    v2 = [f["m2_c"], f["m2_b"], f["m2_t"]]
+    s2 = [f["q2_c"], f["q2_b"], f["q2_t"]]
+    mu2 = f["mu2_ref"]
+    bad = False
+    for i in range(3):
+        if s2[i] == v2[i]:
+            continue
+        if (nf_ref == i + 4 and s2[i] > mu2) or (nf_ref == i + 3 and s2[i] < mu2) or (i + 3 >= nf_ref and s2[i] >= v2[i]) or (i + 3 < nf_ref and s2[i] < v2[i]):
+            bad = True
+    masses = HeavyQuarkMasses([QuarkMassRef([v**0.5, s**0.5]) for v, s in zip(v2, s2)])
+    info = CouplingsInfo(alphas=0.118 if mu2 > 1000 else 0.25, alphaem=0.007496, ref=(mu2**0.5, nf_ref), em_running=False)
+    try:
+        out = mm.compute(masses, info, (3, 0), CouplingEvolutionMethod.EXPANDED, [1.0, 1.0, 1.0])
+        err = None
+    except ValueError as e:
+        err = str(e)
+    except Exception as e:  # noqa
+        return {"detail": "compute raised %s: %s for masses %r, scales %r, mu2_ref %r, nf_ref %d" % (type(e).__name__, e, v2, s2, mu2, nf_ref)}
+    if err is not None and "not to be sorted" not in err and not bad:
+        return {"detail": "compute raised ValueError(%s) for a consistent configuration: masses^2 %r at scales^2 %r, mu2_ref %r, nf_ref %d" % (err[:60], v2, s2, mu2, nf_ref)}
+    if err is None and bad:
+        return {"detail": "compute accepted an inconsistent configuration: masses^2 %r at scales^2 %r, mu2_ref %r, nf_ref %d -> %r" % (v2, s2, mu2, nf_ref, list(out))}
+    if err is None and not np.all(np.diff(out) >= 0):
+        return {"detail": "compute returned unsorted masses %r" % (list(out),)}
+    return None
+
+
+# ---------------------------------------------------------------------------
+def main():
+    chk = H.Check("C18")
+    thorough = H.tier() == "thorough"
+    preimport("eko.msbar_masses", "eko.couplings", "refs.decoupling", "refs.rge_literature")
+    chk.bounds = ["compute: nf_ref in {3,4,5,6}, all three reference masses, their scales and the coupling reference scale free positive symbols (squares), "
+                  "fixed points / evolved values arbitrary positive symbols; every feasible path of the bookkeeping",
+                  "solve: orders 2-4, expanded and exact coupling method, start value and reference mass symbolic in (1, 1000) GeV^2, nf=5 patch",
+                  "kernels: orders 1-4, symbolic beta_k, gamma_k (all nf); evolve: single thresholds in both directions and the routes 3->5, 6->4, orders 1-4, "
+                  "symbolic couplings, logarithms and xif2; RG / published-relation comparison through O(a^(order-1)) for nf_l = 3, 4, 5"]
+    chk.out_of_claim = ["existence, uniqueness and numerical accuracy of the fixed point found by MINPACK (fsolve) and of QUADPACK (quad)",
+                        "the value m_MSbar(m) = m itself (only: the residual handed to fsolve is the fixed-point condition, its root is returned)",
+                        "runcards.masses (a two-line dispatch on the scheme)"]
+    chk.stubs = ["scipy.optimize.fsolve -> contract stub: residual called once with a length-1 ndarray holding the start value, returns a length-1 ndarray holding a fresh symbol",
+                 "scipy.integrate.quad -> records (integrand, limits, args), returns a fresh symbol", "scipy.integrate.solve_ivp (exact coupling) -> recording stub as in C15",
+                 "compute bookkeeping: solve / evolve / Couplings -> recorders returning fresh positive symbols; np.inf -> symbol INF larger than every scale",
+                 "evolve: the Couplings object -> recorder with concrete walls returning symbolic a_s per requested nf; thresholds_ratios -> tokens (value 1, symbolic log)",
+                 "builtin float() -> real float() on numbers and numpy arrays (so float(length-1 array) raises as on the installed numpy), identity on symbols",
+                 "msbar_masses.compute_matching_coeffs_up -> the real function with float entries lifted to exact rationals"]
+    chk.assumptions = ["refs/decoupling.py (zeta_m, zeta_g) and refs/rge_literature.py transcribe the cited papers correctly; their mutual RG consistency is itself an obligation",
+                       "MS-bar heavy-quark mass m_h(mu) in the logarithm runs with the (nf+1)-flavour anomalous dimension"]
+    for nf_ref in (3, 4, 5, 6):
+        chk.case("compute.bookkeeping.nfref%d" % nf_ref, case_bookkeeping, nf_ref=nf_ref)
+    for method in ("expanded", "exact"):
+        for order in ((3,) if not thorough else (2, 3, 4)):
+            chk.case("solve.%s.o%d" % (method, order), case_solve, order=order, method=method)
+    chk.case("ker.expanded", case_ker_expanded)
+    chk.case("ker.exact+dispatcher", case_ker_exact)
+    for order in (1, 2, 3, 4):
+        chk.case("evolve.loop.o%d" % order, case_evolve_loop, order=order)
+    for order in (3, 4):
+        chk.case("evolve.physics.o%d" % order, case_evolve_physics, order=order)
+    return chk.run()
+
+
+if __name__ == "__main__":
+    import sys
+
+    sys.exit(main())
